@@ -30,12 +30,12 @@ vars == <<owner, releases, result, cls, act>>
 Stages == {"parse", "link-pre", "link-mid", "link-post", "sealed", "kx", "sched"}
 Kinds == [ parse |-> {"random", "truncated", "bit", "lengths", "tiers"},
            linkpre |-> {"len0to3", "len4to11", "len12to27", "lenbeyond", "lenmax", "garbage", "mutated"},
-           linkmid |-> {"mutated2", "mutated3", "lengths", "garbage"},
+           linkmid |-> {"mutated2", "mutated3", "lengths", "garbage", "signed-fields"},
            linkpost |-> {"len0to3", "len4to11", "len12to27", "lenbeyond", "garbage", "replayed-handshake"},
            sealed |-> {"msgtype", "header", "switchblock", "pinghdr-version", "pinghdr-length", "pinghdr-cbor", "pinghdr-type", "pinghdr-code",
                        "pinghdr-identity", "body-random", "body-truncated", "body-wrongtype", "body-deep", "body-hugelen", "body-crossfed",
                        "hopchain-truncated", "hopchain-deep", "hopchain-random", "hopchain-oversized", "traffic-short", "traffic-version",
-                       "traffic-mismatch", "traffic-proto", "traffic-nokeys", "forward-unknown", "forward-ttl", "forward-noroute", "appendix-stray", "clone-sizes"},
+                       "traffic-mismatch", "traffic-proto", "traffic-nokeys", "forward-unknown", "forward-ttl", "forward-noroute", "appendix-stray", "clone-sizes", "raw-oversized"},
            kx |-> {"cross-handshake"},
            sched |-> {"pong-retry"} ]   \* responses that race the retry of their request (PingPong.tla)
 KindsOf(s) == CASE s = "parse" -> Kinds.parse [] s = "link-pre" -> Kinds.linkpre [] s = "link-mid" -> Kinds.linkmid
